@@ -234,6 +234,8 @@ impl<T> Receiver<T> {
     }
 
     fn recv_max_until(&self, timeout: Duration) -> Result<T, RecvTimeoutError> {
+        #[cfg(may_verif)]
+        use crate::verif::VInstant as Instant;
         let deadline = Instant::now() + timeout;
         loop {
             match self.inner.recv(Some(timeout)) {
